@@ -110,6 +110,9 @@ func (k Keeper) Logger(ctx context.Context) log.Logger {
 	return sdkCtx.Logger().With("module", fmt.Sprintf("x/%s", types.ModuleName))
 }
 
+// ErrNoBridgeValidators is returned when no bonded validator has a registered EVM address
+var ErrNoBridgeValidators = errors.New("no validators found")
+
 func (k Keeper) GetCurrentValidatorsEVMCompatible(ctx context.Context) ([]*types.BridgeValidator, error) {
 	validators, err := k.stakingKeeper.GetAllValidators(ctx)
 	if err != nil {
@@ -134,7 +137,7 @@ func (k Keeper) GetCurrentValidatorsEVMCompatible(ctx context.Context) ([]*types
 	}
 
 	if len(bridgeValset) == 0 {
-		return nil, errors.New("no validators found")
+		return nil, ErrNoBridgeValidators
 	}
 
 	// Sort the validators
